@@ -211,10 +211,10 @@ def _find_pattern(sf, lo, hi, pat_text, what):
 
 def expand(template_path, repo, vacuity=False):
     """Expand a unit template.  Returns Unit."""
-    with open(template_path, encoding="utf-8") as f:
-        tlines = f.read().split("\n")
+    tlines, tmap = _preprocess(template_path, 0)
     unit = Unit(os.path.basename(template_path).split(".")[0].upper())
     unit.template = template_path
+    unit.tmap = tmap
     i = 0
     buf, buf_line = [], 1
 
@@ -343,7 +343,27 @@ def _pubfields(sf, kw, en, base_off):
     return text
 
 
-_LABEL = re.compile(r"//#\s*(\S+)(?:\s+\[([A-Z0-9,]+)\])?\s*$")
+def _preprocess(path, depth):
+    """expand `//@@ INCLUDE <file>` textually; returns (lines, [(file, line)])"""
+    if depth > 5:
+        raise GenError("INCLUDE nesting too deep at %s" % path)
+    with open(path, encoding="utf-8") as f:
+        raw = f.read().split("\n")
+    lines, tmap = [], []
+    for n, l in enumerate(raw, 1):
+        s = l.strip()
+        if s.startswith("//@@ INCLUDE"):
+            inc = os.path.join(os.path.dirname(path), s.split()[2])
+            il, im = _preprocess(inc, depth + 1)
+            lines.extend(il)
+            tmap.extend(im)
+        else:
+            lines.append(l)
+            tmap.append((os.path.basename(path), n))
+    return lines, tmap
+
+
+_LABEL = re.compile(r"//#\s*(\S+)(?:\s+\[([A-Z0-9,\-]+)\])?\s*$")
 
 
 def _emit_fn(unit, repo, rel, scope, name, opts, flags, contract, directives, vacuity, template_path):
@@ -389,10 +409,22 @@ def _emit_fn(unit, repo, rel, scope, name, opts, flags, contract, directives, va
     ctext = "\n".join(c for c, _ in contract)
     has_ens = re.search(r"\bensures\b", ctext) is not None
     vac_done = False
-    for (cl, tline) in contract:
+    # a label at the end of a (possibly multi-line) clause applies to every line of that clause
+    labels = [None] * len(contract)
+    pending = []
+    for k, (cl, tline) in enumerate(contract):
         m = _LABEL.search(cl)
-        label, props = (m.group(1), (m.group(2) or "").split(",")) if m else (None, [""])
-        props = [p for p in props if p]
+        pending.append(k)
+        if m:
+            lab = (m.group(1), [p for p in (m.group(2) or "").split(",") if p])
+            for q in pending:
+                labels[q] = lab
+            pending = []
+        elif re.match(r"^\s*(requires|ensures|decreases|recommends)\s*$", cl):
+            pending = []
+    for k, (cl, tline) in enumerate(contract):
+        label, props = labels[k] if labels[k] else (None, [])
+        m = _LABEL.search(cl)
         text = cl
         if vacuity and not vac_done:
             if has_ens and re.search(r"\bensures\b", cl):
@@ -403,7 +435,7 @@ def _emit_fn(unit, repo, rel, scope, name, opts, flags, contract, directives, va
                 vac_done = True
         unit.segs.append(Seg(text + "\n", "contract",
                              {"fn": qual, "tline": tline, "label": label, "props": props}))
-        if label and not vacuity:
+        if m and not vacuity:
             unit.clauses.append({"fn": qual, "label": label, "props": props, "text": cl.split("//#")[0].strip()})
     if vacuity and not vac_done:
         unit.segs.append(Seg("    ensures false,\n", "contract", {"fn": qual, "tline": 0, "label": "VACUITY", "props": []}))
